@@ -115,3 +115,8 @@ void _ZN10QXmppUtils16generateHmacSha1ERK10QByteArrayS2_(char *ret, char *key, c
 uint32_t _ZN10QXmppUtils13generateCrc32ERK10QByteArray(char *text) { uint8_t d[20]; G_vp_crc_calls++; orc_call(cr_log, &cr_n, 0, *(QAD**)text, 4, d);
   return ((uint32_t)d[0] << 24) | ((uint32_t)d[1] << 16) | ((uint32_t)d[2] << 8) | d[3]; }
 #endif
+/* decode()'s diagnostic list (`QStringList *errors`) is logging, not part of C14/C15: QStringList::operator<<(const QString&) (inline, Qt)
+   is a no-op here, the list stays empty (cuts the QList<QString> growth code out of every error path) */
+#ifdef HAVE_T_struct_QArrayData
+char* _ZN11QStringListlsERK7QString(char *self, char *s) { return self; }
+#endif
